@@ -22,7 +22,7 @@ ASSUMPTIONS = ["no order is demanded between publication and Change handlers, no
                "Change events for sibling switches flipped by a rule are not demanded; for BLOBs only 'changed bytes => Change'",
                "Element._value is read inside handler probes (the public .value would itself raise a Read event)"]
 REQUIRED_EVENTS = ["operations", "multi_instance_cases", "write_handler_calls", "change_handler_calls", "read_handler_calls", "coroutine_handler_runs",
-                   "vetoed_writes", "publications_observed", "operations_cut_short_by_a_failing_read_handler", "cases_with_an_overriding_subclass"]
+                   "vetoed_writes", "publications_observed", "operations_cut_short_by_a_failing_read_handler", "cases_with_an_overriding_subclass", "cases_subscribing_through_held_definition_objects"]
 
 
 QUICK_SHARDS = 4
@@ -122,7 +122,7 @@ def assign_instances(rng, ops, n):
     return [rng.randrange(n) for _ in ops]
 
 
-def build_driver(spec, handlers, trace, state, override=False):
+def build_driver(spec, handlers, trace, state, override=False, held_references=False):
     from indi.device import events
     from indi.device.events import on
 
@@ -130,7 +130,11 @@ def build_driver(spec, handlers, trace, state, override=False):
         gd = defs["g"]
 
         def src(t):
-            return gd.vectors[t[0]].elements[t[1]]
+            vd = gd.vectors[t[0]]
+            if held_references:
+                # through the object that was handed to the vector's constructor, kept by the application
+                return getattr(vd, "_vf_original_elements", vd.elements)[t[1]]
+            return vd.elements[t[1]]
 
         for h in handlers:
             sources = [src(t) for t in h["targets"]]
@@ -239,7 +243,9 @@ async def execute(ctx, case, spec, handlers, ops, ninst=1, targets=None, order=T
     state = State()
     if ninst > 1:
         spec = dict(spec, no_class_name=True)     # the name comes from the constructor: Driver(name=...)
-    cls = build_driver(spec, handlers, trace, state, override=bool(case.get("override")))
+    cls = build_driver(spec, handlers, trace, state, override=bool(case.get("override")), held_references=bool(case.get("held")))
+    if case.get("held"):
+        ctx.count("cases_subscribing_through_held_definition_objects")
     if case.get("override"):
         ctx.count("cases_with_an_overriding_subclass")
     router = Router()
@@ -506,7 +512,7 @@ def run(ctx):
     for i in range(n):
         if not ctx.mine(i):
             continue
-        one_case(ctx, {"i": i, "override": i % 4 == 1})
+        one_case(ctx, {"i": i, "override": i % 4 == 1, "held": i % 3 == 2})
         if ctx.enough():
             break
 
